@@ -262,6 +262,24 @@ pub fn run(ctx: &mut Ctx) {
             judge(ctx, s);
         }
     }
+    // blanks other than space / tab / newline: every Unicode White_Space character (1, 2 and 3
+    // bytes long), the zero-width and BOM look-alikes, at the start, inside and at the end of
+    // rejected texts -- wherever an implementation counts or skips "whitespace" by characters
+    ctx.stratum("W-unicode-blanks", true);
+    {
+        const BLANKS: &[char] = &['\u{0b}', '\u{0c}', '\r', '\u{85}', '\u{a0}', '\u{1680}', '\u{2000}', '\u{2003}', '\u{200a}', '\u{2028}', '\u{2029}', '\u{202f}', '\u{205f}', '\u{3000}', '\u{200b}', '\u{feff}'];
+        const TEMPLATES: &[&str] = &["{w}foo", " {w}1.2.3.4", "{w}{w} >=1.y", "{w} {w}\t{w}bar || baz", "1.2.3{w}", "1.2{w}.3", "1.2.3 {w}", ">=1.2.3 {w}|| foo", "foo{w}", "{w}", "\n{w}x", "{w}\n{w}1.2", " {w}", "x{w}{w}{w}y", "{w}1.2.900719925474100", "1.2.3-{w}a", "{w}v1.2", "^{w}1.y", ">={w}", "1 - {w}"];
+        for (bi, b) in BLANKS.iter().enumerate() {
+            for (ti, t) in TEMPLATES.iter().enumerate() {
+                if ctx.take() {
+                    judge(ctx, &t.replace("{w}", &b.to_string()));
+                    // mixed with a second blank of another width
+                    let other = BLANKS[(bi + 1 + ti) % BLANKS.len()];
+                    judge(ctx, &t.replacen("{w}", &other.to_string(), 1).replace("{w}", &b.to_string()));
+                }
+            }
+        }
+    }
     ctx.stratum("X-exhaustive-version-alphabet", true);
     let max_len = ctx.tier.pick(6, 9);
     exhaustive(ctx, max_len, &mut |ctx, s| judge(ctx, s));
